@@ -68,7 +68,7 @@ def run_case(case, workdir):
     res = explore(
         scn, workdir, want=WANT, rng=rng, routes=(), pre_run=pre,
         max_crash_points=case.get("max_crash_points", 80 if quick else None),
-        max_states=0,
+        max_states=case.get("max_states", 1 if quick else 3), second_crash=case.get("second_crash", 8 if quick else 40),
     )
     out = finish(case, scn, res, pre)
     n_kill = case.get("sigkill", (1 if case["run_index"] % 6 == 0 else 0) if quick else 2)
@@ -155,7 +155,7 @@ def finish(case, scn, res, pre):
         + ("shrink" if any(b < a for a, b in zip(sizes, sizes[1:])) else "")
         + ("+prev_larger" if pre is not None else "")
     )
-    keys = [[ck["mode"], ck["every"], pattern, ph] for ph in res["phases"]] if res["states"] else []
+    keys = ([[ck["mode"], ck["every"], pattern, ph] for ph in res["phases"]] if res["states"] else []) + [k for k in res["nontrivial_keys"] if "second_crash" in k]
     return {
         "violations": vs,
         "aborted": res["aborted"],
